@@ -13,6 +13,7 @@ import (
 	v1 "sigs.k8s.io/karpenter/pkg/apis/v1"
 	"sigs.k8s.io/karpenter/pkg/controllers/nodepool/registrationhealth"
 	"sigs.k8s.io/karpenter/pkg/state/nodepoolhealth"
+	tv1alpha1 "sigs.k8s.io/karpenter/pkg/test/v1alpha1"
 
 	"verif/gen"
 	"verif/mon"
@@ -94,7 +95,7 @@ func runE2E(r *mon.Report, tier string, idx int, rng *rand.Rand) {
 		return name
 	}
 	for i := 0; i < n; i++ {
-		op := []int{opSuccess, opSuccess, opFailure, opFailure, opFailure, opResetUnknown, 5}[rng.Intn(7)]
+		op := []int{opSuccess, opSuccess, opFailure, opFailure, opFailure, opResetUnknown, 5, 6}[rng.Intn(8)]
 		switch op {
 		case opSuccess, opFailure:
 			name := newClaim()
@@ -150,6 +151,22 @@ func runE2E(r *mon.Report, tier string, idx int, rng *rand.Rand) {
 			expect = "Unknown"
 			ops += "U"
 			r.Inc("e2e_resets")
+		case 6:
+			// a NodeClass-only change (its generation moves, the NodePool's does not): the window is reset as well, also when
+			// the condition is already Unknown and therefore does not move
+			nc := &tv1alpha1.TestNodeClass{}
+			if e.API.Raw.Get(context.Background(), types.NamespacedName{Name: "default"}, nc) == nil {
+				if nc.Spec.Tags == nil {
+					nc.Spec.Tags = map[string]string{}
+				}
+				nc.Spec.Tags["rev"] = fmt.Sprint(i)
+				e.Apply(nc)
+			}
+			reconcileHealth()
+			w = window{}
+			expect = "Unknown"
+			ops += "N"
+			r.Inc("e2e_nodeclass_resets")
 		default:
 			// controller restart: the tracker is rebuilt empty and re-hydrated from the stored condition
 			e.Restart()
@@ -175,7 +192,7 @@ func runE2E(r *mon.Report, tier string, idx int, rng *rand.Rand) {
 	}
 	r.Sig("e2e-len%d-%s", len(ops)/4, ops[:min(len(ops), 6)])
 	if r.WantSample() {
-		r.Sample(map[string]any{"kind": "e2e", "ops": ops, "alphabet": "S=claim registered F=registration timeout U=NodePool spec change R=controller restart", "final_condition": expect})
+		r.Sample(map[string]any{"kind": "e2e", "ops": ops, "alphabet": "S=claim registered F=registration timeout U=NodePool spec change N=NodeClass-only change R=controller restart", "final_condition": expect})
 	}
 }
 
